@@ -14,7 +14,7 @@ TEXTS = {
                      'The printers are not yet under proved contracts, so nothing is claimed beyond the bound.',
                 note='CPython eval/ast as oracle; domain bounds are written to the evidence.'),
     'C02': dict(category='other', engine='pyvc+bounded', technique=_PYVC + '; ' + _BOUNDED,
-                text='Proved for all strings (family strings): determine_quote_strategy returns a quote character, the single quote unless the double quote occurs strictly less often (ties: single). Proved for ALL strings and every max_len > 0 (780 obligations over z3 String): the pieces str_to_lines yields concatenate to '
+                text='Proved for all strings (family strings): determine_quote_strategy returns a quote character, the single quote unless the double quote occurs strictly less often (ties: single). pretty_str.evaluator (the width-dependent choice, as a nested unit): a string that fits is one literal; otherwise one literal or >= 1 non-empty pieces whose concatenation is s - str_to_lines is called with max_len >= 10, its precondition, at every call; subclass instances are wrapped on every path. Proved for ALL strings and every max_len > 0 (780 obligations over z3 String): the pieces str_to_lines yields concatenate to '
                      'the input, none is empty, and the loop terminates (lexicographic measure); split_at cuts without losing a character. '
                      'Bounded: escaping against the CPython lexer, quote choice, placement in 6 contexts x widths for every str/bytes over a '
                      '10-symbol alphabet up to length 4 (5), str_to_lines / escape_str_for_quote directly up to length 5 (6).',
@@ -69,7 +69,7 @@ TEXTS = {
                      'nesting contexts x 8 (95 thorough) configurations: no failure warning, eval reconstructs an equal object. Two known findings.',
                 note='CPython eval as oracle.'),
     'C08': dict(category='other', engine='pyvc+bounded', technique=_PYVC + '; ' + _BOUNDED,
-                text='Proved for all inputs (family printers, ~2200 obligations; every list / tuple / set value, class, length, limit, depth and trailing comment - the documents the builders return are named by uninterpreted functions): pretty_bracketable_iterable hands exactly the first min(len, N) items, in iteration order, to pretty_python_value under a context one level deeper that keeps max_seq_len (take_n proved to have length min(len, N) and to be the identity for N >= len); the truncation notice exists iff len > N and is formatted from len - N; at depth_left == 0 the placeholder is returned and no element is printed; a one-element tuple keeps its dangling comma unless a trailing comment takes its place; an instance of a subclass is the call general_identifier(class)(literal), also when empty and at the depth cut. pretty_dict (ghost log of the printer calls, two loop invariants): exactly the first min(len, N) keys - in dict order, or in sorted order under sort_dict_keys - are looked up and printed, every key and value under a context one level deeper that keeps max_seq_len (also the second rendering of a commented value; a str key at the level of the dict), the closing notice iff len > N with len - N, the placeholder (class kept, nothing printed) at depth_left == 0. The same for pretty_float / pretty_int / pretty_bool (wrapper iff type(value) is not the base type) and pretty_frozenset; general_identifier names a class by exactly its own __module__ and __qualname__ (builtins and __main__ unqualified). dict / str / bytes subclasses and the evaluation of the text are decided by the bounded stand-in: Bounded-exhaustive over 48 subclasses of the nine bases (plain, __repr__/__str__ overrides, enum style, qualified/nested) x '
+                text='Proved for all inputs (family printers, ~2200 obligations; every list / tuple / set value, class, length, limit, depth and trailing comment - the documents the builders return are named by uninterpreted functions): pretty_bracketable_iterable hands exactly the first min(len, N) items, in iteration order, to pretty_python_value under a context one level deeper that keeps max_seq_len (take_n proved to have length min(len, N) and to be the identity for N >= len); the truncation notice exists iff len > N and is formatted from len - N; at depth_left == 0 the placeholder is returned and no element is printed; a one-element tuple keeps its dangling comma unless a trailing comment takes its place; an instance of a subclass is the call general_identifier(class)(literal), also when empty and at the depth cut. pretty_dict (ghost log of the printer calls, two loop invariants): exactly the first min(len, N) keys - in dict order, or in sorted order under sort_dict_keys - are looked up and printed, every key and value under a context one level deeper that keeps max_seq_len (also the second rendering of a commented value; a str key at the level of the dict), the closing notice iff len > N with len - N, the placeholder (class kept, nothing printed) at depth_left == 0. The same for pretty_float / pretty_int / pretty_bool (wrapper iff type(value) is not the base type) and pretty_frozenset; general_identifier names a class by exactly its own __module__ and __qualname__ (builtins and __main__ unqualified). pretty_str.evaluator (family strings): an instance of a str / bytes subclass is wrapped in its constructor on every path - one literal, unsplittable, or split (the strategy is forced to PLAIN). Non-empty dict subclasses and the evaluation of the text are decided by the bounded stand-in: Bounded-exhaustive over 48 subclasses of the nine bases (plain, __repr__/__str__ overrides, enum style, qualified/nested) x '
                      'base values x 7 contexts x widths: type(eval(out)) is the subclass and the base value is equal.',
                 note='CPython eval as oracle.'),
     'C09': dict(category='other', engine='bounded', technique=_BOUNDED,
@@ -134,7 +134,7 @@ TEXTS = {
                 note=_ENC + 'as_lines, rfind_idx and str.rstrip are shared by both renderers and uninterpreted; the color of a token (style lookup, '
                             'cache) is not part of the proved statement.'),
     'C17': dict(category='other', engine='pyvc+bounded', technique=_PYVC + '; ' + _BOUNDED,
-                text='Proved for all inputs (family printers): pretty_call_alt returns build_fncall(general_identifier(fn), [pretty_python_value(a) for every positional argument, in order], [(name, pretty_python_value(v)) for every keyword argument, in the order given (dict items in dict order)]) - nothing dropped, reordered or printed under a context that differs from the one a stand-alone print one level deeper would get; the sole list / dict / tuple argument is hugged; general_identifier is exactly module.qualname of the callable (builtins / __main__ unqualified). build_fncall, pretty_call\'s *args / **kwargs forwarding and the dataclasses / attrs extras are decided by the bounded stand-in: Bounded: pretty_call / pretty_call_alt argument lists (all with <= 1 argument, random up to 4+3) and generated dataclass / attrs '
+                text='Proved for all inputs (family printers): pretty_call_alt returns build_fncall(general_identifier(fn), [pretty_python_value(a) for every positional argument, in order], [(name, pretty_python_value(v)) for every keyword argument, in the order given (dict items in dict order)]) - nothing dropped, reordered or printed under a context that differs from the one a stand-alone print one level deeper would get; the sole list / dict / tuple argument is hugged; general_identifier is exactly module.qualname of the callable (builtins / __main__ unqualified). pretty_call forwards its packs to it unchanged. The dataclasses and attrs extras (loop invariant over the field list, against the CONTRACT of pretty_call_alt): the keyword arguments are exactly the fields with repr enabled whose value differs from the declared default or default-factory result (or that have no default), in declaration order, attrs under the init alias. build_fncall and the evaluation of the text are decided by the bounded stand-in: Bounded: pretty_call / pretty_call_alt argument lists (all with <= 1 argument, random up to 4+3) and generated dataclass / attrs '
                      'class definitions (all with <= 1 field, random up to 3-4) x instances x configurations: callee, argument order, field selection, eval.',
                 note='keyword names fn/ctx cannot be passed to pretty_call by Python itself: outside the quantifier for pretty_call (kept for pretty_call_alt).'),
     'C18': dict(category='proof', engine='pyvc+bounded', technique=_PYVC + '; frame obligations decided by effect analysis over the ast of the real source; ' + _BOUNDED,
